@@ -186,6 +186,16 @@ func runC04(c *Ctx) {
 	c.c04FailuresAreNotOvertaken(fns)
 	c.c04GivenPathMatchedWhole(fns)
 	c.c04BackendsOnlyRemove()
+	// N20: "entries matching an exclusion pattern survive": the expressions the removal protects with are those of *this* call's
+	// patterns. The compiled list depends on the arguments of NewExclusionRegexList only — no package-level state is read or
+	// written on the way (a cache of compiled lists keyed by less than the whole list hands one call the expressions of
+	// another, and what should survive is deleted): the obligation C08/E10.
+	c.rule("N20", "the compiled exclusion list the removal protects with depends on the arguments of NewExclusionRegexList only: no package-level state is read or written on the way (the obligation C08/E10)", 1)
+	if front, _ := c.c08Compiler(); front != nil {
+		c.ruleAlias = map[string]string{"E10": "N20"}
+		c.c08Pure(front)
+		c.ruleAlias = nil
+	}
 	c.rule("N14", absentOnlyWhenAbsentText, 3)
 	c.c04AbsentOnlyWhenAbsent("N14", nil)
 	for _, f := range fns {
